@@ -789,6 +789,19 @@ func cmdManifest() {
 	var served []string
 	for _, p := range allProps() {
 		served = append(served, p.ID)
+		if p.LevelText == "" {
+			p.LevelText = "Bounded symbolic model checking of the real implementation (go/ssa executed symbolically, SMT verdicts). Quick tier: " + p.Bounds["quick"] + ". Thorough tier: " + p.Bounds["thorough"] + ". Inside these bounds every verdict query is unsat for every symbolic value (or is a listed known finding with its own predicate); inductive one-step harnesses extend to histories of any length where stated; nothing is claimed outside the bounds."
+		}
+		if p.LevelNote == "" {
+			n := "Trusted base: go/ssa construction, the engine's SSA semantics (validated per run by native re-execution of sampled path models with identical observation traces, and by negative twins), z3/cvc5 (cross-checked, models re-evaluated). Assumptions: " + strings.Join(p.Assumptions, "; ")
+			if len(p.Outside) > 0 {
+				n += ". Outside the claim: " + strings.Join(p.Outside, "; ")
+			}
+			p.LevelNote = n
+		}
+		if p.DesignRef == "" {
+			p.DesignRef = "DESIGN.md A4 (" + p.ID + "), A5, A8"
+		}
 		checks = append(checks, chk{
 			PropertyID: p.ID,
 			Quick:      "/verif/bin/symgo check " + p.ID + " --tier quick",
